@@ -301,6 +301,8 @@ class World(RC.World):
             return PartialSpecCall()
         if k == "extends_raises":
             return ExtendsRaises()
+        if k == "call_badbool":
+            return CallBadBool()
         if k == "bare_sb":
             return SpecificationBase()
         if k == "spec":       # a real specification of the world
@@ -476,6 +478,24 @@ DECLS = {
 }
 
 
+class BadBool:
+    def __bool__(self):
+        raise ValueError("bool")
+
+
+class CallBadBool:
+    """a foreign declaration (no _implied) whose answer has a truth value that raises"""
+
+    def __call__(self, spec):
+        return BadBool()
+
+
+def lazy_raise(items):
+    for x in items:
+        yield x
+    raise ValueError("lazy required")
+
+
 def inst_of(cls):
     return cls()
 
@@ -587,6 +607,14 @@ class Interp:
             return self.bare(op, n)
         if k == "reent":
             return self.reent(op)
+        if k == "newcomp":
+            from zope.interface.registry import Components
+            if not hasattr(w, "comps"):
+                w.comps = []
+            w.comps.append(Components("comp%d" % len(w.comps), tuple(w.comps[b] for b in op[1])))
+            return "ok"
+        if k == "comp":
+            return self.comp(op)
         if k == "m_kw":
             # a specification method called with its argument by keyword
             meth, spec, arg = op[1], w.ref(op[2]), w.ref(op[3])
@@ -794,6 +822,76 @@ class Interp:
                 outs.append(tok_exc(e))
         return [outs, fired]
 
+    def comp(self, op):
+        """Components-level API: ["comp", method, component index, args...]; values are [vid, veq]
+        pairs (callable, see reg_common.V), specs are world spec ids, objects are refs"""
+        w = self.w
+        meth, ci = op[1], op[2]
+        cm = w.comps[ci]
+        a = op[3:]
+        S = lambda i: None if i is None else w.specs[i]          # noqa
+        N = w.name
+        if meth == "setbases":
+            cm.__bases__ = tuple(w.comps[b] for b in a[0])
+            return "ok"
+        if meth == "registerUtility":
+            cm.registerUtility(w.value(a[0]), S(a[1]), N(a[2]))
+            return "ok"
+        if meth == "unregisterUtility":
+            return w.canon(cm.unregisterUtility(w.value(a[0]), S(a[1]), N(a[2])))
+        if meth == "queryUtility":
+            r = cm.queryUtility(S(a[0]), N(a[1]), self.dflt)
+            return "default" if r is self.dflt else w.canon(r)
+        if meth == "getUtility":
+            return w.canon(cm.getUtility(S(a[0]), N(a[1])))
+        if meth == "getUtilitiesFor":
+            return sorted([[w.canon(n), w.canon(u)] for n, u in cm.getUtilitiesFor(S(a[0]))], key=repr)
+        if meth == "getAllUtilitiesRegisteredFor":
+            return sorted((w.canon(u) for u in cm.getAllUtilitiesRegisteredFor(S(a[0]))), key=repr)
+        if meth == "registerAdapter":
+            cm.registerAdapter(w.value(a[0]), [S(i) for i in a[1]], S(a[2]), N(a[3]))
+            return "ok"
+        if meth == "unregisterAdapter":
+            return w.canon(cm.unregisterAdapter(w.value(a[0]), [S(i) for i in a[1]], S(a[2]), N(a[3])))
+        if meth == "queryAdapter":
+            r = cm.queryAdapter(w.ref(a[0]), S(a[1]), N(a[2]), self.dflt)
+            return "default" if r is self.dflt else w.canon(r)
+        if meth == "getAdapter":
+            return w.canon(cm.getAdapter(w.ref(a[0]), S(a[1]), N(a[2])))
+        if meth == "queryMultiAdapter":
+            r = cm.queryMultiAdapter([w.ref(x) for x in a[0]], S(a[1]), N(a[2]), self.dflt)
+            return "default" if r is self.dflt else w.canon(r)
+        if meth == "getAdapters":
+            return sorted([[w.canon(n), w.canon(x)] for n, x in cm.getAdapters([w.ref(x) for x in a[0]], S(a[1]))],
+                          key=repr)
+        if meth == "registerSubscriptionAdapter":
+            cm.registerSubscriptionAdapter(w.value(a[0]), [S(i) for i in a[1]], S(a[2]))
+            return "ok"
+        if meth == "unregisterSubscriptionAdapter":
+            return w.canon(cm.unregisterSubscriptionAdapter(w.value(a[0]), [S(i) for i in a[1]], S(a[2])))
+        if meth == "subscribers":
+            return [w.canon(x) for x in cm.subscribers([w.ref(x) for x in a[0]], S(a[1]))]
+        if meth == "registerHandler":
+            cm.registerHandler(w.value(a[0]), [S(i) for i in a[1]])
+            return "ok"
+        if meth == "unregisterHandler":
+            return w.canon(cm.unregisterHandler(w.value(a[0]), [S(i) for i in a[1]]))
+        if meth == "handle":
+            before = len(w.calls)
+            cm.handle(*[w.ref(x) for x in a[0]])
+            return [c[0] for c in w.calls[before:]]
+        if meth == "registered":
+            def key(r):
+                return repr([w.canon(getattr(r, "provided", None)), w.canon(tuple(getattr(r, "required", ()))),
+                             w.canon(getattr(r, "name", "")), w.canon(getattr(r, "component", None) or
+                                                                       getattr(r, "factory", None))])
+            out = []
+            for lst in (cm.registeredUtilities(), cm.registeredAdapters(), cm.registeredSubscriptionAdapters(),
+                        cm.registeredHandlers()):
+                out.append(sorted(key(r) for r in lst))
+            return out
+        raise RuntimeError(meth)
+
     def icsub(self, op):
         """interfaces whose *class* is a plain subclass of InterfaceClass:
         ["icsub", what, object ref, with alternate]   what = adapt | adapt_sub | providedBy"""
@@ -850,6 +948,8 @@ class Interp:
             required = list(items)
         elif req[0] == "gen":
             required = lazy(items)
+        elif req[0] == "genraise":
+            required = lazy_raise(items)
         else:
             required = items[0]
         provided = w.ref(prov)
